@@ -15,7 +15,11 @@ Fixpoint set_nth {A} (l : list A) (i : nat) (v : A) : list A :=
   end.
 Definition apply_delta (prev : list (option payload)) (minted : nat) (d : list (nat * option payload)) :=
   fold_left (fun l iv => set_nth l (fst iv) (snd iv)) d (prev ++ repeat None minted)%list.
-Inductive hcase := HCase (cfg : config) (cls : list client) (steps : list step_rec).
+(* HCaseRaw: the history was executed on the raw in-memory store (session objects shared by pointer): only the
+   monitors are evaluated on it, the by-value model is not compared *)
+Inductive hcase :=
+| HCase (cfg : config) (cls : list client) (steps : list step_rec)
+| HCaseRaw (cfg : config) (cls : list client) (steps : list step_rec).
 
 Definition ckinds_eqb (a b : list ckind) : bool :=
   Nat.eqb (List.length a) (List.length b) && forallb (fun p => ckind_eqb (fst p) (snd p)) (combine a b).
@@ -50,7 +54,10 @@ Fixpoint corr_from (cfg : config) (s : state) (prev : list (option payload)) (i 
   end.
 
 Definition hist_corr (c : hcase) : option string :=
-  match c with HCase cfg cls steps => corr_from cfg (state0 (clients_of cls)) [] 0 steps end.
+  match c with
+  | HCase cfg cls steps => corr_from cfg (state0 (clients_of cls)) [] 0 steps
+  | HCaseRaw _ _ _ => None
+  end.
 
 (* the implementation's trace with full probe vectors, as the monitors read it *)
 Fixpoint expand_from (prev : list (option payload)) (steps : list step_rec) : list (op * obs * list (option payload)) :=
@@ -60,11 +67,13 @@ Fixpoint expand_from (prev : list (option payload)) (steps : list step_rec) : li
       let pr := apply_delta prev (List.length (o_minted ob)) d in
       (o, ob, pr) :: expand_from pr r
   end.
-Definition impl_trace (c : hcase) := match c with HCase _ _ steps => expand_from [] steps end.
+Definition impl_trace (c : hcase) := match c with HCase _ _ steps | HCaseRaw _ _ steps => expand_from [] steps end.
+Definition case_cfg (c : hcase) : config := match c with HCase cfg _ _ | HCaseRaw cfg _ _ => cfg end.
+Definition case_clients (c : hcase) : list client := match c with HCase _ cls _ | HCaseRaw _ cls _ => cls end.
 
 (* the model's own trace for a case (used when a replay is printed) *)
 Definition model_trace (c : hcase) :=
-  match c with HCase cfg cls steps => trace cfg (state0 (clients_of cls)) (map (fun x => fst (fst x)) steps) end.
+  match c with HCase cfg cls steps | HCaseRaw cfg cls steps => trace cfg (state0 (clients_of cls)) (map (fun x => fst (fst x)) steps) end.
 
 Definition check_corr_only (c : hcase) : verdict := V (hist_corr c) None.
 
